@@ -275,10 +275,10 @@ pub trait TrX: Trait {
     /// a destination for `clone_from` that currently holds ANOTHER element type (see `foreign_vec_impl`)
     fn foreign_vec<T: Elem, M: MX>(kind: u8) -> Option<AnyVec<Self, M>>;
     /// lazy-clone of an `Element` (ElementRef / ElementMut / drained element all deref to it)
-    fn lz_element<'e, MS: MemBuilder, M: MemBuilder, C: Consumer<Self, M>>(_e: &Element<'e, Self, MS>, _depth: u8, _a: &mut AnyVec<Self, M>, _c: C) { unreachable!() }
-    fn lz_pop<'e, MS: MemBuilder, M: MemBuilder, C: Consumer<Self, M>>(_e: &Pop<'e, Self, MS>, _depth: u8, _a: &mut AnyVec<Self, M>, _c: C) { unreachable!() }
-    fn lz_remove<'e, MS: MemBuilder, M: MemBuilder, C: Consumer<Self, M>>(_e: &Remove<'e, Self, MS>, _depth: u8, _a: &mut AnyVec<Self, M>, _c: C) { unreachable!() }
-    fn lz_swap_remove<'e, MS: MemBuilder, M: MemBuilder, C: Consumer<Self, M>>(_e: &SwapRemove<'e, Self, MS>, _depth: u8, _a: &mut AnyVec<Self, M>, _c: C) { unreachable!() }
+    fn lz_element<'e, MS: MemBuilder, M: MemBuilder, Tr2: ?Sized + Trait, C: Consumer<Tr2, M>>(_e: &Element<'e, Self, MS>, _depth: u8, _a: &mut AnyVec<Tr2, M>, _c: C) { unreachable!() }
+    fn lz_pop<'e, MS: MemBuilder, M: MemBuilder, Tr2: ?Sized + Trait, C: Consumer<Tr2, M>>(_e: &Pop<'e, Self, MS>, _depth: u8, _a: &mut AnyVec<Tr2, M>, _c: C) { unreachable!() }
+    fn lz_remove<'e, MS: MemBuilder, M: MemBuilder, Tr2: ?Sized + Trait, C: Consumer<Tr2, M>>(_e: &Remove<'e, Self, MS>, _depth: u8, _a: &mut AnyVec<Tr2, M>, _c: C) { unreachable!() }
+    fn lz_swap_remove<'e, MS: MemBuilder, M: MemBuilder, Tr2: ?Sized + Trait, C: Consumer<Tr2, M>>(_e: &SwapRemove<'e, Self, MS>, _depth: u8, _a: &mut AnyVec<Tr2, M>, _c: C) { unreachable!() }
     fn lzd_element<'e, T: 'static, MS: MemBuilder>(_e: &Element<'e, Self, MS>, _depth: u8) -> Option<T> { unreachable!() }
     fn lzd_pop<'e, T: 'static, MS: MemBuilder>(_e: &Pop<'e, Self, MS>, _depth: u8) -> Option<T> { unreachable!() }
     fn lzd_remove<'e, T: 'static, MS: MemBuilder>(_e: &Remove<'e, Self, MS>, _depth: u8) -> Option<T> { unreachable!() }
@@ -349,10 +349,10 @@ macro_rules! trx_cloneable {
             fn clone_from_vec<M: MemBuilder>(dst: &mut AnyVec<Self, M>, src: &AnyVec<Self, M>) { dst.clone_from(src) }
             fn element_clone_fn<M: MemBuilder>(v: &AnyVec<Self, M>) -> Option<unsafe fn(*const u8, *mut u8, usize)> { Some(v.element_clone()) }
             fn foreign_vec<T: Elem, M: MX>(kind: u8) -> Option<AnyVec<Self, M>> { foreign_vec_impl::<T, Self, M>(kind) }
-            fn lz_element<'e, MS: MemBuilder, M: MemBuilder, C: Consumer<Self, M>>(e: &Element<'e, Self, MS>, depth: u8, a: &mut AnyVec<Self, M>, c: C) { lazy_feed(e, depth, a, c) }
-            fn lz_pop<'e, MS: MemBuilder, M: MemBuilder, C: Consumer<Self, M>>(e: &Pop<'e, Self, MS>, depth: u8, a: &mut AnyVec<Self, M>, c: C) { lazy_feed(e, depth, a, c) }
-            fn lz_remove<'e, MS: MemBuilder, M: MemBuilder, C: Consumer<Self, M>>(e: &Remove<'e, Self, MS>, depth: u8, a: &mut AnyVec<Self, M>, c: C) { lazy_feed(e, depth, a, c) }
-            fn lz_swap_remove<'e, MS: MemBuilder, M: MemBuilder, C: Consumer<Self, M>>(e: &SwapRemove<'e, Self, MS>, depth: u8, a: &mut AnyVec<Self, M>, c: C) { lazy_feed(e, depth, a, c) }
+            fn lz_element<'e, MS: MemBuilder, M: MemBuilder, Tr2: ?Sized + Trait, C: Consumer<Tr2, M>>(e: &Element<'e, Self, MS>, depth: u8, a: &mut AnyVec<Tr2, M>, c: C) { lazy_feed(e, depth, a, c) }
+            fn lz_pop<'e, MS: MemBuilder, M: MemBuilder, Tr2: ?Sized + Trait, C: Consumer<Tr2, M>>(e: &Pop<'e, Self, MS>, depth: u8, a: &mut AnyVec<Tr2, M>, c: C) { lazy_feed(e, depth, a, c) }
+            fn lz_remove<'e, MS: MemBuilder, M: MemBuilder, Tr2: ?Sized + Trait, C: Consumer<Tr2, M>>(e: &Remove<'e, Self, MS>, depth: u8, a: &mut AnyVec<Tr2, M>, c: C) { lazy_feed(e, depth, a, c) }
+            fn lz_swap_remove<'e, MS: MemBuilder, M: MemBuilder, Tr2: ?Sized + Trait, C: Consumer<Tr2, M>>(e: &SwapRemove<'e, Self, MS>, depth: u8, a: &mut AnyVec<Tr2, M>, c: C) { lazy_feed(e, depth, a, c) }
             fn lzd_element<'e, T: 'static, MS: MemBuilder>(e: &Element<'e, Self, MS>, depth: u8) -> Option<T> { lazy_downcast::<T, _>(e, depth) }
             fn lzd_pop<'e, T: 'static, MS: MemBuilder>(e: &Pop<'e, Self, MS>, depth: u8) -> Option<T> { lazy_downcast::<T, _>(e, depth) }
             fn lzd_remove<'e, T: 'static, MS: MemBuilder>(e: &Remove<'e, Self, MS>, depth: u8) -> Option<T> { lazy_downcast::<T, _>(e, depth) }
